@@ -625,6 +625,9 @@ def alias_phase(chk, rng, n):
                 if r.random() < 0.5:
                     out.append("~ pick({'name': 'k', 'weight': 1})")
                 out.append("Alias {ys} {box['items']} {box['table']} {d2} {pair} {len(bag.items)} {len(holder['inv'].items)}")
+                if r.random() < 0.5:
+                    # a directive whose arguments ARE live story objects (mutated in place by later passages)
+                    out.append(r.choice(["@render panel(xs)", "@render panel(box, k=ys)", "@render card(d, k=pair)"]))
         src = "from bardic.stdlib.inventory import Inventory\n\n" + "\n".join(out)
         try:
             story = R.compile_story(src)
@@ -639,6 +642,21 @@ def alias_phase(chk, rng, n):
         ins = r.choice([[("undo",), base[j]], [("undo",), ("redo",)], [("undo",), base[j], ("undo",), ("redo",)]])
         rb, _ = R.run_history(story, base[:j + 1] + ins + base[j + 1:])
         stats["inserted"] += 1
+        # a successful undo right after a choice shows exactly what was shown before that choice (text, choices AND the
+        # data of render directives, whose arguments may be live story objects that the undone choice mutated in place)
+        for t in range(2, len(rb)):
+            if rb[t]["op"][0] == "undo" and rb[t]["obs"] == ("bool", True) and rb[t - 1]["op"][0] == "choose" \
+                    and rb[t - 1]["obs"][0] == "ok" and rb[t - 1].get("before") and rb[t]["view"]:
+                u, w = strip_flags(rb[t]["view"]), strip_flags(rb[t - 1]["before"])
+                for vv in (u, w):
+                    vv["vars"] = {kk: x for kk, x in vv["vars"].items() if kk not in ("bag", "holder", "pick")}
+                if u != w:
+                    diff = [kk for kk in u if u[kk] != w.get(kk)]
+                    chk.report("undo-not-exact:shared-objects:" + ",".join(sorted(diff)),
+                               f"undo after a choice differs from the situation before it in {diff} (variables share objects; "
+                               "directive arguments are live objects)",
+                               {"subseed": sub, "story_source": src, "ops": [x["op"] for x in rb[1:t + 1]]})
+                    break
         # align: steps of A after j correspond to steps of B after j + len(ins)
         for k in range(j + 1, len(ra)):
             kb = k + len(ins)
@@ -717,6 +735,39 @@ def pyblock_syntax_phase(chk, rng, n):
                 diff = [kk for kk in strip_flags(recs[k]["before"]) if strip_flags(recs[k]["before"])[kk] != strip_flags(recs[k + 1]["view"]).get(kk)]
                 chk.report("undo-after-fault-not-exact", f"after the failing choice ({host}, {code!r}) one undo does not restore {diff}",
                            {"story_source": src, "ops": ops})
+    # branch and choice conditions that the compiler accepts but that are not valid expressions (`=` typed for `==`, a
+    # dangling operator): the branch is skipped / the choice hidden, nothing is raised
+    for _ in range(max(6, n // 3)):
+        cond = rng.choice(["a = 1", "a +", "a ==", "(a", "a b", "not", "a ===1"])
+        host = rng.choice(["if", "elif", "choice", "inline"])
+        if host == "if":
+            body = [f"@if {cond}:", "    yes-branch", "@else:", "    no-branch", "@endif"]; want_in, want_out = "no-branch", "yes-branch"
+        elif host == "elif":
+            body = ["@if a > 5:", "    big", f"@elif {cond}:", "    yes-branch", "@else:", "    no-branch", "@endif"]; want_in, want_out = "no-branch", "yes-branch"
+        elif host == "choice":
+            body = ["plain", "+ {" + cond + "} [Hidden] -> Start"]; want_in, want_out = "plain", None
+        else:
+            body = ["Inline {" + cond + " ? yes-branch | other}"]; want_in, want_out = "Inline", None
+        src = "\n".join([":: Start", "~ a = 1", "Start text", "+ [Go] -> T", "", ":: T", "T text"] + body + ["+ [Back] -> Start"])
+        try:
+            story = R.compile_story(src)
+        except (SyntaxError, ValueError):
+            stats["kinds"]["cond-rejected-at-compile"] = stats["kinds"].get("cond-rejected-at-compile", 0) + 1
+            continue
+        recs, eng = R.run_history(story, [("choose", 0), ("undo",), ("choose", 0)])
+        stats["cases"] += 1
+        chk.count(("condsyn", host, cond), True)
+        first = recs[1]
+        if first["obs"][0] == "exc" and first["obs"][1] not in ("RuntimeError", "ValueError"):
+            chk.report(f"choose-raised-{first['obs'][2] if len(first['obs']) > 2 else first['obs'][1]}",
+                       f"a {host} condition that is not a valid expression ({cond!r}) made choose() raise {first['obs']}",
+                       {"story_source": src})
+        elif first["obs"][0] == "ok":
+            txt = first["view"]["raw_content"]
+            shown = [c[0] for c in first["view"]["choices"]]
+            if (want_out and want_out in txt) or (host in ("if", "elif") and want_in not in txt) or (host == "choice" and "Hidden" in shown):
+                chk.report(f"unevaluable-condition-not-skipped:{host}", f"{host} condition {cond!r}: shown {txt!r}, choices {shown}",
+                           {"story_source": src})
     return stats
 
 
@@ -1071,6 +1122,22 @@ def call_shape_phase(chk, rng, n):
                            {"story_source": src, "ops": ops, "signature": sig, "args": args})
             if vals_special:
                 stats["special_values"] = stats.get("special_values", 0) + 1
+    # a default is evaluated at every call (Python evaluates it once; bardic documents defaults as expressions evaluated when
+    # the passage is entered): a mutable literal default mutated by the body must be fresh on the next call
+    for dflt, mut, shown in (("[]", "acc.append(p)", "[{p}]"), ("{}", "acc['k'] = p", "{{'k': {p}}}"), ("[0]", "acc.append(p)", "[0, {p}]")):
+        src = (":: Start\n+ [One] -> T(1)\n+ [Two] -> T(2)\n\n" + f":: T(p, acc={dflt})\n~ {mut}\nACC {{acc}}\n+ [Back] -> Start\n")
+        try:
+            story = R.compile_story(src)
+        except (SyntaxError, ValueError):
+            continue
+        recs, _ = R.run_history(story, [("choose", 0), ("choose", 0), ("choose", 1), ("choose", 0), ("choose", 0)])
+        texts = [x["view"]["raw_content"] for x in recs if x["view"] and x["view"]["pid"] == "T"]
+        want = ["ACC " + shown.format(p=1), "ACC " + shown.format(p=2), "ACC " + shown.format(p=1)]
+        got = [next((l for l in t.split("\n") if l.startswith("ACC ")), None) for t in texts]
+        chk.count(("mutable-default", dflt), True)
+        if got != want:
+            chk.report("parameter-default-lingers-between-calls", f"T(p, acc={dflt}) called three times relying on the default shows {got}, "
+                       f"expected {want}", {"story_source": src})
     # the initial passage is entered without arguments: every way of designating it x every signature
     stats["initial"] = {"rejected": 0, "started": 0}
     for _ in range(max(12, n // 8)):
